@@ -192,9 +192,10 @@ def regime_mask(bounds, tbvals, s):
     return out
 
 
-def exact_cells(bounds, tbvals, p):
+def exact_cells(bounds, tbvals, p, mask):
     """per row: None (non-finite) or ((cx, cy), safe): the cell of the exact bbox centre, clamped;
-    safe = the scaled value is far enough from a cell boundary for rounding not to matter"""
+    safe = the row is in the exact regime (mask) or the scaled value is far enough from a cell
+    boundary for binary64 rounding not to matter"""
     n = 1 << p
     t = [float(v) for v in tbvals[:4]]
     if not all(math.isfinite(v) for v in t):
@@ -211,7 +212,7 @@ def exact_cells(bounds, tbvals, p):
     if t[0] == t[2] or t[1] == t[3]:
         return [None] * len(bounds)
     out = []
-    for row in bounds:
+    for row, inregime in zip(bounds, mask):
         if not all(math.isfinite(v) for v in row):
             out.append(None)
             continue
@@ -223,10 +224,8 @@ def exact_cells(bounds, tbvals, p):
             c = min(max(math.floor(q), 0), n - 1)
             cell.append(c)
             near = min(abs(q - math.floor(q)), abs(math.ceil(q) - q)) if -1 <= q <= n else 1
-            if near != 0 and near < Fraction(1, 1 << 30) * max(1, abs(q)):
+            if not inregime and near < Fraction(1, 1 << 30) * max(1, abs(q)):
                 safe = False
-            if near == 0 and not 0 <= q <= n:
-                pass
         out.append((cell, safe))
     return out
 
@@ -450,17 +449,17 @@ def run(rep):
                     rep.violation('range', 'hilbert distance outside [0, 4^p) or wrong length',
                                   {**meta, 'impl': res})
                     continue
-                check_cells(rep, meta, bounds, tbvals, p, res, tag)
+                s = case_scale(bounds, [v for v in tbvals if math.isfinite(v)] + total)
+                mask = regime_mask(bounds, tbvals, s) if s <= MAX_SCALE_BITS else [False] * len(bounds)
+                check_cells(rep, meta, bounds, tbvals, p, res, tag, mask)
                 if rep.evaluations % 9 == 0:
                     invariance(rep, rng, meta, arr, tbobj, vals, p, res)
                 if rep.evaluations % 23 == 0:
                     series_agrees(rep, meta, arr, tbobj, p, res)
                 # ---- the model
-                s = case_scale(bounds, [v for v in tbvals if math.isfinite(v)] + total)
                 if s > MAX_SCALE_BITS:
                     rep.count('scale_too_fine_not_modelled')
                     continue
-                mask = regime_mask(bounds, tbvals, s)
                 if any(mask):
                     rep.nontrivial((kind, st, repr(bounds), label, form, repr(vals), p))
                     rep.count('rows_modelled', sum(mask))
@@ -500,9 +499,9 @@ def short_sequences(rep, cases, results, metas):
                       'tb_values': [float(v) for v in obj], 'p': 4, 'impl': exc or res})
 
 
-def check_cells(rep, meta, bounds, tbvals, p, res, tag):
+def check_cells(rep, meta, bounds, tbvals, p, res, tag, mask):
     """every finite row decodes to the cell of the exact bbox centre (clamped to the border)"""
-    cells = exact_cells(bounds, tbvals, p)
+    cells = exact_cells(bounds, tbvals, p, mask)
     n = 1 << p
     for i, (c, d) in enumerate(zip(cells, res)):
         if c is None:
@@ -672,7 +671,9 @@ def replay(rep, rp):
             return False
         meta = {k: rp.get(k) for k in ('kind', 'subtype', 'elements', 'derivation', 'tb_label', 'tb_form',
                                        'tb_values', 'p')}
-        check_cells(rep, meta, bounds, tbvals, p, res, 'replay')
+        s = case_scale(bounds, [v for v in tbvals if math.isfinite(v)] + total)
+        mask = regime_mask(bounds, tbvals, s) if s <= MAX_SCALE_BITS else [False] * len(bounds)
+        check_cells(rep, meta, bounds, tbvals, p, res, 'replay', mask)
         invariance(rep, rep.rng, meta, arr, tbobj, vals, p, res)
         series_agrees(rep, meta, arr, tbobj, p, res)
         for f in SEQ_FORMS:
@@ -682,8 +683,6 @@ def replay(rep, rp):
                 if r2 != res or not u2:
                     print(f'form {f}: result {r2 if e2 is None else e2}, unchanged {u2}')
                     ok = False
-        s = case_scale(bounds, [v for v in tbvals if math.isfinite(v)] + total)
-        mask = regime_mask(bounds, tbvals, s)
         expect = (C.Rec('Returned', [C.Some(U.NN(d)) if m else None for d, m in zip(res, mask)]),
                   seq_term(tbobj, s))
     else:
